@@ -22,7 +22,7 @@ import (
 
 // C04 — every RPC call gets its own handler run, result and status.
 
-var c04kinds = []string{"ok", "code", "panic", "oneway", "cstream", "sstream", "early", "sfail"}
+var c04kinds = []string{"ok", "code", "panic", "oneway", "cstream", "sstream", "early", "sfail", "send"}
 
 func c04request(kind string, id int) prpc.Request {
 	w := prpc.NewRequestWriter()
@@ -103,6 +103,17 @@ func (h *c04server) handle(ctx Context, ch ServerChannel) (ref.R[[]byte], status
 	case "early":
 		// responds without reading the client's stream
 		return valueBytes(fmt.Sprintf("res-%d", id)), status.OK
+	case "send":
+		// streams, ends its stream explicitly, then responds
+		for i := 0; i < 2; i++ {
+			if st := ch.Send(rctx, []byte(fmt.Sprintf("s%d-%d", id, i))); !st.OK() {
+				return nil, st
+			}
+		}
+		if st := ch.SendEnd(rctx); !st.OK() {
+			return nil, st
+		}
+		return valueBytes(fmt.Sprintf("res-%d", id)), status.OK
 	case "sfail":
 		// streams, then fails with an application status: the response message itself ends the stream
 		for i := 0; i < 2; i++ {
@@ -169,7 +180,7 @@ func c04call(c Client, kind string, id int, r *c04result) {
 		if st.OK() {
 			r.result = res.String().Clone()
 		}
-	case "sstream", "sfail":
+	case "sstream", "sfail", "send":
 		ch, st := c.Channel(ctx, req)
 		if !st.OK() {
 			r.st = st
@@ -231,7 +242,7 @@ func c04check(x *vexp.Ctx, r *c04result, h *c04server, faulty bool) {
 		if string(r.st.Code) != fmt.Sprintf("my_code_%d", r.id) || r.st.Message != fmt.Sprintf("msg %d", r.id) || fmt.Sprint(r.stream) != want || r.streamSt.Code != status.CodeEnd {
 			x.Fail("streaming call that fails after streaming: application status or stream not delivered to its caller", "%s: got code=%q message=%q stream=%v streamEnd=%v", name, r.st.Code, r.st.Message, r.stream, r.streamSt.Code)
 		}
-	case "sstream":
+	case "sstream", "send":
 		want := fmt.Sprintf("[s%d-0 s%d-1]", r.id, r.id)
 		if !r.st.OK() || r.result != fmt.Sprintf("res-%d", r.id) || fmt.Sprint(r.stream) != want || r.streamSt.Code != status.CodeEnd {
 			x.Fail("server-streaming call: messages/response wrong or out of order", "%s: status=%v result=%q stream=%v streamEnd=%v", name, r.st, r.result, r.stream, r.streamSt.Code)
@@ -313,7 +324,7 @@ func init() {
 			}
 			return out
 		},
-		Doc: "real rpc client over a real mpx client (scheduler-controlled connector), real rpc server handler: every ordered pair (thorough: triples) of concurrent calls from {unary ok, application code+message, handler panic, oneway, client-streaming, server-streaming, early response, server-streaming that ends with an application status}, MaxConns 1 or 2; every caller is checked against the sequential specification of its own call id; rpc response frames on the wire are counted",
+		Doc: "real rpc client over a real mpx client (scheduler-controlled connector), real rpc server handler: every ordered pair (thorough: triples) of concurrent calls from {unary ok, application code+message, handler panic, oneway, client-streaming, server-streaming, early response, server-streaming that ends with an application status, server-streaming with an explicit SendEnd}, MaxConns 1 or 2; every caller is checked against the sequential specification of its own call id; rpc response frames on the wire are counted",
 		Body: func(x *vexp.Ctx) {
 			h := &c04server{invoked: map[int]int{}, streams: map[int][]string{}}
 			srv := &server{handler: HandleFunc(h.handle)}
